@@ -237,6 +237,27 @@ package graph
 //@   ensures[C19] present_len: (q in g.nodes) ==> !isnil(result) && len(result) == ite(q in g.edges, len(g.edges[q]), 0)
 //@   ensures[C19] present_elems: forall i int :: (q in g.nodes) && (q in g.edges) && 0 <= i && i < len(g.edges[q]) ==> result[i] == g.edges[q][i]
 //
+//@ func DependencyGraph.GetTransitiveDependencies
+//   The traversal is a function literal that calls itself through the variable it is bound to. It is checked under the frame
+//   contract derived from its syntactic write set (the visited map, the result slice): every obligation of its body is generated
+//   for the state of an arbitrary recursion level. What the recursion computes (the reachable set) is NOT decided here - that
+//   clause of C19 stays with the bounded family graph/ops.
+//@   safety[C15,C19]
+//@   monitor[C19,C05,C06] wf: wf(g)
+//@   monitor[C19,C06] sort_cache: cacheOK(g)
+//@   monitor[C06,C19] sort_order by(sort_order) each_return: sortOrderOK(g)
+//@   monitor[C05,C19] cycle_cache by(cache_sound_kept) each_return: cycleCacheSound(g)
+//@   monitor[C06,C19] no_stale_deps by(no_stale_deps) each_return: noStaleDeps(g)
+//   the visited map has the type of g.cycleCache; the traversal writes the one and never the other
+//@   at before return#2 : assert[C05,C19] cache_untouched: g.cycleCacheDirty == old(g.cycleCacheDirty) && g.cycleCache == old(g.cycleCache) && (forall k NodeKey :: ((k in g.cycleCache) <==> old(k in g.cycleCache)) && (g.cycleCache[k] <==> old(g.cycleCache[k])))
+//@   at before return#2 : assert[C05,C19] cache_contents_same: samecontents(g.cycleCache)
+//@   at before return#2 : assert[C05,C19] cached_cycles_kept by(cycle_cache): !g.cycleCacheDirty ==> (forall k NodeKey :: g.cycleCache[k] ==> onCycle(g, k))
+//@   at before return#2 : assert[C05,C19] empty_cache_was_empty by(cache_untouched): (forall k NodeKey :: !g.cycleCache[k]) ==> old(forall k NodeKey :: !g.cycleCache[k])
+//@   at before return#2 : assert[C05,C19] clean_empty_cache_kept by(cycle_cache, empty_cache_was_empty, cache_untouched): !g.cycleCacheDirty && (forall k NodeKey :: !g.cycleCache[k]) ==> acyclic(g)
+//@   at before return#2 : assert[C05,C19] cache_sound_kept by(cached_cycles_kept, clean_empty_cache_kept): cycleCacheSound(g)
+//@   let q = mk("NodeKey", serviceType, key, group)
+//@   ensures[C19] no_edge_list_no_dependencies: !(q in g.edges) ==> len(result) == 0
+//
 //@ func DependencyGraph.GetDependents
 //@   monitor[C19,C05,C06] wf: wf(g)
 //@   monitor[C19,C06] sort_cache: cacheOK(g)
